@@ -136,7 +136,7 @@ class Sym(object):
 
 DEFAULT_W = dict(query=30, refit=12, threshold=10, calibrate=6, handout=8,
                  mutate=3, restart=7, clone=4, ambient=5, eigsh=3, set_nondata=4,
-                 failfit=3, fault=0, new=6, sweep=0, swap_pre=3, interrupt=0)
+                 failfit=3, fault=0, new=6, sweep=0, swap_pre=3, interrupt=0, mutate_store=0)
 
 
 def gen_history(seed, tier, classes=None, weights=None, n_ops=(6, 16),
@@ -450,6 +450,17 @@ def gen_history(seed, tier, classes=None, weights=None, n_ops=(6, 16),
           # must preserve exactly that state
           ops.append(dict(op="restart", h=s.hid, how="inproc"))
           fit_op(s, other)
+    elif k == "mutate_store":
+      # the caller edits the array / list / table its estimators read through, in
+      # place, and fits again
+      cands = [x for x in syms if x.pre and not datasets[x.data].get("view_of")]
+      if cands:
+        s2 = r.choice(cands)
+        ops.append(dict(op="mutate_store", data=s2.data, seed=r.randrange(10**6), how=r.choice(["rows", "all"])))
+        for x in syms:
+          if x.pre and (x.data == s2.data or datasets[x.data].get("view_of")):
+            x.fitted = False
+        fit_op(s2, s2.data)
     elif k == "set_nondata":
       cp = cls_params(s.name)
       cand = {}
